@@ -138,9 +138,10 @@ pub fn query(q: &Value) -> String {
             let t = query(x);
             if s(x, "k") == "setop" { format!("({})", t) } else { t }
         };
+        // a set operation on the left is written without parentheses (chains are left-associative)
         return format!(
             "{} {}{} {}{}",
-            side(&q["l"]),
+            query(&q["l"]),
             s(q, "op").to_uppercase(),
             if b(q, "all") { " ALL" } else { "" },
             side(&q["r"]),
